@@ -339,7 +339,11 @@ class _LHSValueCompiler(_ValueCompiler):
         def gen(arg):
             width_mask = (1 << value.width) - 1
             offset_mask = (1 << len(value.offset)) - 1
-            offset = f"({value.stride} * ({offset_mask:#x} & {self.rrhs(value.offset)}))"
+            # An offset at or beyond the end of the target assigns nothing. Clamp it, so that the cost
+            # of the shifts below does not grow with the numeric value of an out-of-range offset
+            # (e.g. a wide address).
+            offset = self.emitter.def_var("offset",
+                f"min({value.stride} * ({offset_mask:#x} & {self.rrhs(value.offset)}), {len(value.value)})")
             self(value.value)(f"({self.lrhs(value.value)} & " \
                 f"~({width_mask:#x} << {offset}) | " \
                 f"(({width_mask:#x} & {arg}) << {offset}))")
